@@ -618,6 +618,15 @@ class Summarizer:
             return ('unknown', 'binop ' + name)
         if n in ('and', 'or') and opty.get('k') != 'bool':
             n = 'bit' + n
+        k = opty.get('k') or ''
+        if k.startswith('u') and k in INT_BITS:
+            # comparisons of an unsigned value with 0 that hold for every value of the type
+            # (unsigned range patterns `0..=c` compile to `0 <= x && x <= c`)
+            zero = ('int', 0)
+            if (n == 'le' and a == zero) or (n == 'ge' and b == zero):
+                return ('bool', True)
+            if (n == 'gt' and a == zero) or (n == 'lt' and b == zero):
+                return ('bool', False)
         if name.endswith('WithOverflow'):
             val = op(n, a, b)
             flag = self.overflow_flag(n, a, b, opty)
@@ -965,9 +974,9 @@ class Summarizer:
     def continue_with(self, st, v, ret_dest, target):
         """Deliver the value of a finished call to its continuation (shared by do_return)."""
         caller = st.frames[-1]
-        if isinstance(target, tuple) and target[0] == 'stop':
-            st.done = ('closure_ret', v, target[1])
-            return [st]
+        if isinstance(target, tuple) and target[0] == 'then':
+            # continuation given as a function (state, callee result) -> [states]
+            return target[1](self, st, v)
         if isinstance(target, tuple):
             _, kind, dest, target = target
             tmp = ret_dest[0]
